@@ -21,7 +21,7 @@ const repoModule = "github.com/sheerbytes/sheerbytes"
 
 var contractPkgs = []string{
 	"internal/transfer", "internal/app", "internal/peers", "internal/session",
-	"internal/scheduler", "pkg/manifest", "cmd/thruserv",
+	"internal/scheduler", "pkg/manifest", "cmd/thruserv", "internal/config",
 }
 
 type Verifier struct {
